@@ -224,6 +224,12 @@ def run_case(desc, ctx):
         E = RefVolume(len(V), C).edges
     n = len(V)
     V = np.array(V, dtype=float)
+    unit = rng.choice([1.0, 1.0, 1.0, 1e-9, 1e6])
+    if unit != 1.0:
+        ctx.cls("units:%g" % unit)
+        V = V * unit
+        for i in range(n):
+            m.vertices[i] = M.Vec(V[i].copy())
     if rng.random() < 0.3:
         # history: measured earlier (persistent edge lengths), then deformed in place: 'length' weights are those of the current geometry
         ctx.cls("history:measured_then_deformed")
@@ -442,6 +448,18 @@ def run_case(desc, ctx):
 
 def _check_forest(ctx, kind, forest, n, adj):
     ctx.obs("forest", kind)
+    # the forest's edge list is read first, twice: reading it must not change the trees
+    ok, fe1 = ctx.call("forest.edges", lambda: [tuple(sorted(int(x) for x in e)) for e in forest.edges], monitor="forest", abort=False)
+    ok2, fe2 = ctx.call("forest.edges", lambda: [tuple(sorted(int(x) for x in e)) for e in forest.edges], monitor="forest", abort=False)
+    if ok and ok2:
+        try:
+            union = sorted(tuple(sorted(int(x) for x in e)) for t in forest.trees for e in t.edges)
+        except Exception:
+            union = None
+        if sorted(fe1) != sorted(fe2) or union is None or sorted(fe2) != union or len(set(fe2)) != len(fe2):
+            ctx.violation("forest", kind, "forest_edge_list_inconsistent", "forest.edges is not the union of the trees' edges, each once (or changes when read again)",
+                          first=len(fe1), second=len(fe2), union=None if union is None else len(union))
+            return
     comp = _components(range(n), adj)
     ncomp = len(set(comp.values()))
     try:
